@@ -329,8 +329,15 @@ trait Ext {
 }
 
 impl Ext for DataValue {
+    /// Adds two values, ignoring NULLs. The result is NULL only if both are NULL.
     fn add(self, other: Self) -> Self {
-        if self.is_null() { other } else { self + other }
+        if self.is_null() {
+            other
+        } else if other.is_null() {
+            self
+        } else {
+            self + other
+        }
     }
 
     fn or(self, other: Self) -> Self {
